@@ -189,10 +189,13 @@ def _ifc_items(b, items):
 
 def _host_in_flow(chain):
     """the element box whose children the inline content was when element_to_box processed it: nearest
-    non-anonymous ancestor that is not an inline box"""
+    non-anonymous ancestor that is not an inline box (for a table: float/position have moved to its wrapper)"""
     from weasyprint.formatting_structure import boxes
-    for b in reversed(chain):
+    for i in range(len(chain) - 1, -1, -1):
+        b = chain[i]
         if not _is_anon(b) and not isinstance(b, (boxes.InlineBox, boxes.LineBox)):
+            if isinstance(b, boxes.TableBox) and i > 0 and chain[i - 1].is_table_wrapper:
+                return bool(chain[i - 1].is_in_normal_flow()), b.element_tag
             return bool(b.is_in_normal_flow()), b.element_tag
     return True, None
 
